@@ -95,6 +95,23 @@ class Prop(PropBase):
             "A": [[complex(a).real, complex(a).imag] for a in A.astype(complex)],
             "B": [[complex(a).real, complex(a).imag] for a in B.astype(complex)],
         }
+        # the conversions are functions of the CURRENT samples and basis label: repeat them on the same object after an
+        # in-place change (exact: scaling by 2) and after relabelling the basis, and compare with a fresh object
+        try:
+            if not case["dask"]:
+                z2 = type(z).like(z, np.array(np.asarray(z.data), copy=True))
+                first = np.asarray(z2.to_stokes().data).copy()
+                np.multiply(z2, 2, out=z2)
+                again = np.asarray(z2.to_stokes().data)
+                out["hist_scale_ok"] = bool(np.array_equal(again, 4 * first))
+                other = "circular" if z2.pol_type == "linear" else "linear"
+                fresh = type(z2).like(z2, np.array(np.asarray(z2.data), copy=True), pol_type=other)
+                z2.pol_type = other
+                out["hist_label_ok"] = bool(np.array_equal(np.asarray(z2.to_stokes().data), np.asarray(fresh.to_stokes().data))
+                                            and np.array_equal(np.asarray(z2.to_linear().data), np.asarray(fresh.to_linear().data))
+                                            and np.array_equal(np.asarray(z2.to_intensity().data), np.asarray(fresh.to_intensity().data)))
+        except Exception as e:  # noqa
+            out["hist_err"] = err_name(e)
         return out
 
     def model_requests(self, case, code):
@@ -146,6 +163,10 @@ class Prop(PropBase):
             return f"class / pol_type / labels / meta / container wrong on output #{code['meta'].index(False)}"
         if not code["keyerr"] or not code["comps_ok"]:
             return "Stokes component access by name is wrong"
+        if code.get("hist_scale_ok") is False:
+            return "to_stokes() called again after the samples were doubled in place is not 4x the first result (stale result)"
+        if code.get("hist_label_ok") is False:
+            return "conversions after relabelling pol_type differ from the same conversions on a fresh signal with that label"
         sh = code["in_shape"]
         if code["shapes"] != [sh, sh, sh[:2] + [4] + sh[3:], sh]:
             return f"output shapes {code['shapes']}"
